@@ -11,6 +11,15 @@ claimed = {
  "C08": dict(text="Lean theorems (PV.Props.C08): for every capacity < 2^31-1, every rd/wr position and every op sequence the ring buffer never leaves its data area and answers exactly as one bounded FIFO byte queue (write all-or-nothing, read oldest min(len,used), used+free=capacity, clear); tied by a differential run of the real PShmBuffer (several handles, header positions compared after every op, exhaustive small scopes). Handles opened with a smaller size argument are a recorded finding (F6), proved as a concrete disagreement.",
              note=TB + "POSIX shm zero-fill and MAP_SHARED coherence; atomicity of concurrent ops rests on the per-name lock (C07). Partial: theorems are for handles sharing one modulus.",
              technique="Lean 4 refinement proof (ring buffer -> FIFO queue) + differential correspondence", ref="§3 C08"),
+ "C12": dict(text="Lean theorems (PV.Props.C12): for each of BST, red-black and AVL and every comparator that is oriented and transitive (Std.TransCmp), every sequence of insert/replace/remove/lookup/foreach-with-any-stop/clear/count from the empty tree gives exactly the outputs of a strictly sorted association list (node count, found flags, lookup results, visited prefix in ascending order, destroy logs) and the C code never dereferences NULL; models are recursive transliterations of the parent-pointer loops, tied by a shape-exact differential run (tree shape reconstructed from comparator probes after every op; exhaustive small scopes + random).",
+             note=TB + "The threaded (Morris) traversal's link restoration is covered by shape comparison before/after every traversal, not by a theorem (functional traversal proved). Allocation failure excluded (C18).",
+             technique="Lean 4 refinement proof (tree algorithms -> sorted map) + shape-exact differential correspondence", ref="§3 C12"),
+ "C13": dict(text="Lean theorems (PV.Props.C13): every AVL tree reachable by any op sequence has stored balance factors equal to the height differences and within [-1,1]; every reachable red-black tree has a black root, no red-red edge and equal black heights; hence fib(h+2) <= n+1 (AVL, i.e. h <= 1.4405 log2(n+2)) and 2^ceil(h/2) <= n+1 (red-black, i.e. h <= 2 log2(n+1)); a lookup compares at most h keys. Tied by the same shape-exact differential run plus harness-side balance / colourability / depth oracles on the reconstructed shape.",
+             note=TB + "The logarithmic forms are stated in exact integer form (Fibonacci / power of two); the real-valued 1.44*log2 rewriting is not formalised.",
+             technique="Lean 4 invariant proof by induction over operations + differential correspondence", ref="§3 C13"),
+ "C14": dict(text="Lean theorems (PV.Props.C14 on top of C12): the destroy log of every call equals the spec's (old pair on replace, removed pair on remove, everything on clear) and over any history destroyed ++ stored is a permutation of inserted, so with distinct objects nothing is destroyed twice or while stored; for all three variants. Tied by notifier identity logs under ASan (heap-allocated keys/values: double destroy = double free).",
+             note=TB + "Behaviour without notifiers (tree never frees/alters user objects) is checked by the harness only (objects verified intact), not a theorem.",
+             technique="Lean 4 refinement + multiset (Perm) invariant over histories + differential correspondence under ASan", ref="§3 C14"),
 }
 checks = []
 for pid, c in sorted(claimed.items()):
